@@ -213,10 +213,10 @@ def cycle_template(rng, m, name):
 def generate(ctx):
     rng = ctx.rng
     out = []
-    for i in range(ctx.n(150, 600)):
+    for i in range(ctx.n(70, 450)):
         out.append(dict(kind="history", ops=gen_history(rng, rng.choice([4, 8, 12, 16, 24]))))
     # directed: cycles through the origobj edge of a wrapper (after a random prefix)
-    for i in range(ctx.n(36, 180)):
+    for i in range(ctx.n(18, 120)):
         out.append(dict(kind="history", template=TEMPLATES[i % len(TEMPLATES)],
                         ops=gen_history(rng, rng.choice([0, 0, 2, 5, 9]), TEMPLATES[i % len(TEMPLATES)])))
     return out
@@ -323,7 +323,10 @@ def shrink(ctx, case, failing):
     s = ctx.scratch()
 
     def fails(cand):
-        out, _ = s.run_worker("c21_worker.py", dict(histories=[cand]), timeout=120)
+        try:
+            out, _ = s.run_worker("c21_worker.py", dict(histories=[cand]), timeout=120)
+        except Exception:
+            return False
         return bool(out) and "trace" in out["results"][0] and failing(cand, out["results"][0])
     def closed(prefix):
         m = Mirror()
@@ -357,17 +360,41 @@ def evaluate(ctx, cases, asan=None):
         return
     asan = bool(asan)
     s = ctx.scratch(asan=asan)
-    out, p = s.run_worker("c21_worker.py", dict(histories=[c["ops"] for c in cases]), timeout=3000)
-    if out is None:
-        if p.returncode in (77, 78) or "AddressSanitizer" in p.stderr:
-            ctx.violation(cases[0], "memory error reported by the sanitizer while running the histories: "
-                          + p.stderr[-1500:])
+    # several shorter worker processes side by side; a worker that does not come back is a
+    # harness problem with a clear message, never a traceback
+    import subprocess
+    from concurrent.futures import ThreadPoolExecutor
+    size = 40 if asan else 120
+    chunks = [cases[i:i + size] for i in range(0, len(cases), size)]
+
+    def run_chunk(chunk):
+        try:
+            return s.run_worker("c21_worker.py", dict(histories=[c["ops"] for c in chunk]), timeout=420)
+        except subprocess.TimeoutExpired:
+            return "timeout", None
+    with ThreadPoolExecutor(4) as ex:
+        parts = list(ex.map(run_chunk, chunks))
+    results = []
+    for chunk, (out, p) in zip(chunks, parts):
+        if out == "timeout":
+            ctx.obligation_broken("C21 harness", "a worker process running %d histories did not finish within 420 s"
+                                  % len(chunk))
+            results += [dict(harness_skip=True)] * len(chunk)
+        elif out is None:
+            if p.returncode in (77, 78) or "AddressSanitizer" in p.stderr:
+                ctx.violation(chunk[0], "memory error reported by the sanitizer while running the histories: "
+                              + p.stderr[-1500:])
+            else:
+                ctx.violation(chunk[0], "the interpreter died while running the histories (rc=%s): %s"
+                              % (p.returncode, p.stderr[-800:]))
+            results += [dict(harness_skip=True)] * len(chunk)
         else:
-            ctx.violation(cases[0], "the interpreter died while running the histories (rc=%s): %s"
-                          % (p.returncode, p.stderr[-800:]))
-        return
+            results += out["results"]
+    out = dict(results=results)
     coqcases, owner = [], []
     for c, r in zip(cases, out["results"]):
+        if "harness_skip" in r:
+            continue
         if "harness_error" in r:
             ctx.obligation_broken("C21 harness", r["harness_error"])
             continue
@@ -388,7 +415,10 @@ def evaluate(ctx, cases, asan=None):
             else:
                 ctx.extra["shrunk"] = nshrunk + 1
                 small = shrink(ctx, c, lambda cand, rr: bool(check_history(cand, rr)))
-            out2, _ = s.run_worker("c21_worker.py", dict(histories=[small["ops"]]), timeout=120)
+            try:
+                out2, _ = s.run_worker("c21_worker.py", dict(histories=[small["ops"]]), timeout=120)
+            except Exception:
+                out2 = None
             msg = check_history(small["ops"], out2["results"][0]) if out2 and "trace" in out2["results"][0] else bad
             ctx.violation(small, "; ".join((msg or bad)[:3]))
         # the model on the same history: OCollectAuto after every operation
@@ -431,7 +461,7 @@ def run(ctx):
     if ctx.thorough:
         # a part of the same histories under AddressSanitizer (use-after-free of struct memory,
         # handles, buffers)
-        evaluate(ctx, cases[:60] + cases[-60:], asan=True)
+        evaluate(ctx, cases[:40] + cases[-40:], asan=True)
 
 
 MANIFEST = dict(
